@@ -44,6 +44,8 @@ def split_off(lin):
 
 
 class State(object):
+    _cc = None
+
     def __init__(self):
         self.objs = {}
         self.env = {}           # term -> Dom
@@ -72,6 +74,7 @@ class State(object):
         s.counter = self.counter
         s.tags = dict(self.tags)
         s.path = self.path
+        s._cc = None
         return s
 
     # ---- fresh names
@@ -81,7 +84,24 @@ class State(object):
 
     # ---- equality store
     def canon(self, t):
+        if t[0] == 'c':
+            return t
+        if not has_special(t):
+            if not self.eq:
+                return t
+            cc = self.__dict__.get('_cc')
+            if cc is None or self.__dict__.get('_ccn') != len(self.eq) or self.__dict__.get('_cci') != id(self.eq):
+                cc = self._cc = {}
+                self._ccn = len(self.eq)
+                self._cci = id(self.eq)
+            r = cc.get(t)
+            if r is None:
+                r = cc[t] = self._canon(t)
+            return r
         return self._canon(t)
+
+    def touch(self):
+        self._cc = None
 
     def _canon(self, t):
         r = self.eq.get(t)
@@ -166,6 +186,7 @@ class State(object):
         if other[0] == 'c':
             rep, other = other, rep
         self.eq[other] = rep
+        self._cc = None
         if rep[0] != 'c':
             self.env[rep] = d
         return True
@@ -248,6 +269,11 @@ class State(object):
                 if b.lo >= 128:
                     return Dom(255, 255)
                 return Dom(0, 255, frozenset(range(1, 255)))
+            d = D(t[1])
+            if d.lo >= 0 and d.hi != INF:
+                top = int(d.hi) >> (8 * t[2])
+                if top < 255:
+                    return Dom(0, top)
             return BYTE
         if k == 'cat':
             lo = hi = 0
@@ -444,6 +470,7 @@ class State(object):
         rel = []
         changed = True
         facts = list(self.facts) + self._derived_facts(atoms)
+        derived_for = set(atoms)
         used = set()
         while changed:
             changed = False
@@ -456,8 +483,12 @@ class State(object):
                     n0 = len(atoms)
                     atoms.update(f.co)
                     if len(atoms) != n0:
-                        facts.extend(self._derived_facts(set(f.co)))
+                        newa = set(f.co) - derived_for
+                        derived_for.update(newa)
+                        facts.extend(self._derived_facts(newa))
                     changed = True
+        if not rel:
+            return False          # box constraints only: the interval bound above is exact
         sys_.extend(rel)
         for a in atoms:
             d = self.dom(a)
@@ -502,16 +533,20 @@ class State(object):
         self.trace = self.trace + (e,)
 
     # ---- identity for merging
+    def pre_sig(self):
+        """Cheap necessary condition for equal mem_sig."""
+        return (self.trace, self.stack, len(self.objs), tuple(len(f) for f in self.frames))
+
     def mem_sig(self):
         items = []
-        for oid in sorted(self.objs):
-            o = self.objs[oid]
+        canon = self.canon
+        for oid, o in self.objs.items():
             if o.kind == 'str' or (o.kind == 'global' and (o.ro or (not o.cells and o.default == 'unknown'))):
                 continue
-            cs = tuple(sorted(((k, w, self.canon(t)) for k, (w, t) in o.cells.items()), key=repr))
+            cs = frozenset((k, w, t if t[0] == 'c' else canon(t)) for k, (w, t) in o.cells.items())
             items.append((oid, o.live, o.default, o.zeroed_n, cs))
-        fr = tuple(tuple(sorted(f.items())) for f in self.frames)
-        return (tuple(items), fr, self.trace, self.stack, tuple(sorted(self.tags.items(), key=repr)))
+        fr = tuple(frozenset(f.items()) for f in self.frames)
+        return (frozenset(items), fr, self.trace, self.stack, frozenset(self.tags.items()))
 
     def join_knowledge(self, o):
         """Keep only knowledge common to both states (memory is identical)."""
@@ -536,6 +571,34 @@ class State(object):
                 keep.append(f)
         self.facts = keep
         return self
+
+
+_SPECIAL = {}
+
+
+def has_special(t):
+    """Does the term contain sel/selw/pset (whose canonical form depends on more than the equality store)?"""
+    r = _SPECIAL.get(t)
+    if r is None:
+        k = t[0]
+        if k in ('sel', 'selw', 'pset'):
+            r = True
+        elif k in ('c', 'in', 'sym', 'uninit', 'fn'):
+            r = False
+        else:
+            r = False
+            for x in t[1:]:
+                if isinstance(x, tuple):
+                    if x and isinstance(x[0], tuple):
+                        if any(has_special(y) for y in x):
+                            r = True
+                            break
+                    elif x and isinstance(x[0], str) and has_special(x):
+                        r = True
+                        break
+        if len(_SPECIAL) < 2000000:
+            _SPECIAL[t] = r
+    return r
 
 
 def all_known_neq(st, p):
